@@ -13,4 +13,10 @@ open VaxisModel.Model.Key VaxisModel.Gen.Keys
 def bindableEvent (k : Key) : Bool :=
   realKey k.keycode && decide (k.event ≠ EventRelease) && decide (k.mods < 256)
 
+/-- A law of the `unicode` tables: the upper case of a lower-case letter (when it has one of its own) has a lower
+    case of its own — `ToLower(ToUpper r) ≠ ToUpper r`.  (It need not be `r`: ToLower(ToUpper 'ı') = 'i'.)  Checked on
+    Go's tables over all of Unicode by the `hypl` op of the C09 driver. -/
+def UpperHasLower (u : Uni) : Prop :=
+  ∀ r, u.isLower r = true → u.toUpper r ≠ r → u.toLower (u.toUpper r) ≠ u.toUpper r
+
 end VaxisModel.Spec.KeyEnc
